@@ -30,7 +30,7 @@ ALL_KINDS = FILTER_KINDS + OBJECT_KINDS + POLICY_KINDS + VONLY_KINDS
 
 # Hamming radius around the base configuration, per tier (99 = the whole grammar of the kind)
 RADIUS = {
-    "quick": {"Proxy": 1, "HTTPServer": 1, "MQTTProxy": 1, "Pipeline": 1, "CircuitBreaker": 1,
+    "quick": {"Proxy": 1, "HTTPServer": 1, "MQTTProxy": 1, "Pipeline": 1, "CircuitBreaker": 2,
               "Validator": 2, "RateLimiter": 2, "Mock": 2, "CORSAdaptor": 2, "RequestAdaptor": 2, "ResponseAdaptor": 99,
               "RequestBuilder": 2, "ResponseBuilder": 2, "Fallback": 99, "HeaderLookup": 2, "HeaderToJSON": 99,
               "MeshAdaptor": 2, "Retry": 2, "GlobalFilter": 99,
@@ -241,6 +241,10 @@ TRACE_COLLECT = TRACE_BASE + "CONSTRAINT Observe\nINVARIANT TypeOK\n"
 TRACE_STRICT = TRACE_BASE + "INVARIANTS TypeOK NoPanicAfterAccept RuleRejected UsedOnlyIfAccepted ValidateOnlyStops\n"
 
 
+REQ_LOCK = threading.Lock()
+REQ_SEEN, REQ_NEED = set(), set()      # (kind, request class) pairs handled / demanded by the specification
+
+
 def trace_lines(cfg, events):
     """The life-cycle of one configuration as the trace spec reads it."""
     out = [{"ev": "reset", "c": cfg["c"], "kind": cfg["kind"], "cfg": cfg["cfg"]}]
@@ -280,6 +284,15 @@ def tlc_validate(ctx, cfgs, per, tag):
             ctx.inconclusive("C13: trace spec did not report its registers:\n" + _tail(tr.out, 30))
         P = {int(x) for x in re.findall(r"-?\d+", pm.group(1))}
         R = {int(x) for x in re.findall(r"-?\d+", rm.group(1))}
+        # request classes handled vs. the classes ConfigSpaceGrammar!Reqs lists for the kinds that served anything
+        sm = re.search(r'"VERIF_REQSEEN",\s*(\{.*?\})\s*>>\s*$', tr.out, re.M | re.S)
+        nm = re.search(r'"VERIF_REQNEED",\s*(\{.*?\})\s*>>\s*$', tr.out, re.M | re.S)
+        if sm is None or nm is None:
+            ctx.inconclusive("C13: trace spec did not report the request classes:\n" + _tail(tr.out, 30))
+        pair = r'<<"(\w+)",\s*"(\w+)">>'
+        with REQ_LOCK:
+            REQ_SEEN.update(re.findall(pair, sm.group(1)))
+            REQ_NEED.update(re.findall(pair, nm.group(1)))
         return P, R
 
     with ThreadPoolExecutor(max_workers=min(4, len(chunks)) or 1) as ex:
@@ -363,7 +376,7 @@ def run(ctx):
                        "with NoPanicAfterAccept/RuleRejected evaluated on every observed state; non-trivial = distinct accepted configurations "
                        "whose object was instantiated and served requests")
     ctx.assumptions += [
-        "value classes are concretised by the harness (one concrete value per class); 'any request' = the request classes of ConfigSpace (HttpReqs, ServerReqs, MqttReqs, PolicyReqs)",
+        "value classes are concretised by the harness (one concrete value per class); 'any request' = the request classes of ConfigSpaceGrammar (HttpReqs, ServerReqs, MqttReqs, PolicyReqs; HTTP request paths are derived from the configured paths /a and /api: bare, trailing slash, extra segments, other case, percent-encoded, no segment boundary; SigReqs carry signatures made by the repository's signer with key k/secret s, k/empty secret, and a garbage signature header); TLC reports the (kind, class) pairs handled and the run is inconclusive when a class the specification lists was never sent",
         "a filter is driven inside a real one-node Pipeline created through Supervisor.NewSpec (the admin API's validation); backends are local httptest servers, the cluster is clustertest.MockedCluster",
         "kinds that need external systems are validate-only (KafkaMQTT, Kafka, RemoteFilter, CertExtractor) or skipped (WasmHost: build tag; ConnectControl, TopicMapper, MQTTClientAuth: MQTT-session filters; service registries, AutoCertManager, mesh, tracing, HTTP/3)",
         "a panic in a goroutine owned by the object under test is observed as a crash of the harness process and attributed to the life-cycle call in flight",
@@ -451,6 +464,14 @@ def run(ctx):
             ctx.inconclusive("C13: no configuration of kind %s reached validation" % k)
         if a1 * 10 < a1 + r1:
             ctx.inconclusive("C13 vacuity guard: only %d of the %d near-base configurations of kind %s were accepted" % (a1, a1 + r1, k))
+    # "any request": every request class the specification lists for a kind must have been sent to it
+    missing = sorted(REQ_NEED - REQ_SEEN)
+    ctx.cov["request_classes"] = {"sent": len(REQ_SEEN), "demanded_by_spec": len(REQ_NEED)}
+    if missing or not REQ_NEED:
+        ctx.inconclusive("C13: request classes of ConfigSpaceGrammar!Reqs the harness never sent: %s" % (missing[:12] or "none demanded"))
+    for k in FILTER_KINDS + OBJECT_KINDS + POLICY_KINDS:
+        if not any(n[0] == k for n in REQ_NEED):
+            ctx.inconclusive("C13: no accepted configuration of kind %s served a request" % k)
     ta, tr_ = sum(acc.values()), sum(rej.values())
     if ta * 10 < ta + tr_:
         ctx.inconclusive("C13 vacuity guard: only %d of %d configurations were accepted" % (ta, ta + tr_))
